@@ -75,6 +75,19 @@ def _self_capture(model: Model, C: RuleResult):
             tg = [t for t in s.targets if isinstance(t, ast.Attribute) and isinstance(t.value, ast.Name) and t.value.id == "self"]
             if not tg:
                 continue
+            # a bound method of `self` stored on `self` is the same cycle (self -> attribute -> bound method -> self)
+            from ..callgraph import owner_class
+            oc = owner_class(f)
+            for x in ast.walk(s.value):
+                if isinstance(x, ast.Attribute) and isinstance(x.value, ast.Name) and x.value.id == "self" and oc is not None and oc.find_method(x.attr) is not None:
+                    par = getattr(x, "_parent", None)
+                    called = isinstance(par, ast.Call) and par.func is x
+                    m_ = oc.find_method(x.attr)
+                    is_prop = any(ast.unparse(d_) in ("property", "staticmethod", "classmethod") or ast.unparse(d_).endswith(".setter") for d_ in m_.node.decorator_list)
+                    if not called and not is_prop:
+                        n += 1
+                        C.bad(f, s, "a bound method of `self` (self.%s) is stored on `self` (self -> %s -> bound method -> self): the object and every tensor it "
+                              "holds stay alive until the cyclic garbage collector runs" % (x.attr, tg[0].attr), what="%s: self.%s = self.%s" % (f.qualname, tg[0].attr, x.attr))
             for cv in _closure_values(s.value):
                 d = None
                 if isinstance(cv, ast.Lambda):
